@@ -66,3 +66,12 @@ def build_h_ctty():
     if r.returncode:
         raise build.BuildError(r.stderr.decode()[:2000])
     return out
+
+
+def build_h_bindself():
+    os.makedirs(AUX, exist_ok=True)
+    out = os.path.join(AUX, 'h_bindself')
+    r = sh(['gcc', '-O1', '-g', os.path.join(NATIVE, 'h_bindself.c'), '-o', out])
+    if r.returncode:
+        raise build.BuildError(r.stderr.decode()[:2000])
+    return out
